@@ -436,12 +436,216 @@ fn check(case: &Case, logs: &Logs, probes: &[Arc<ProbeLog>]) -> Option<Violation
 pub fn check_def() -> PropertyCheck {
   PropertyCheck {
     id: "C19",
-    scenarios: vec![Box::new(C19Des)],
+    scenarios: vec![Box::new(C19Des), Box::new(C19Threads)],
     runs: (150_000, 6_000_000),
     rule: "case = 1-4 tasks (Once/Sub/Repeat/Future) with delays {none,0,1,5}ms + action list (schedule, run ready task #k, advance clock, jump to next deadline, cancel handle, sample is_closed, emit to subject); non-trivial = a cancel landed before the first poll or while pending on a timer, or a run decision had >= 2 ready tasks; distinct = distinct (case, behaviour) hashes",
     assumptions: vec![
       "executor/timer/clock are the simulator's; schedule(), Remote, TaskHandle and the task types are the shipped code",
       "sequentially consistent execution; no weak-memory effects",
     ],
+  }
+}
+
+// ------------------------------------------------------------------ threads
+
+#[derive(Clone, Debug, Serialize, Deserialize)]
+pub struct TCase {
+  tasks: Vec<TaskSpec>,
+  /// canceller script: indices of tasks to cancel, in order (modulo)
+  cancels: Vec<usize>,
+  workers: usize,
+  sched: SchedSpec,
+}
+
+#[derive(Default)]
+struct TTaskLog {
+  /// (enter stamp, exit stamp, seq, virtual time)
+  runs: Vec<(u64, u64, usize, u64)>,
+  cancel: Option<(u64, u64)>,
+}
+type TLogs = Arc<Mutex<Vec<TTaskLog>>>;
+
+#[derive(Clone)]
+struct TArgs {
+  id: usize,
+  logs: TLogs,
+  limit: usize,
+}
+
+fn t_note(a: &TArgs, seq: usize) {
+  let sh = shared();
+  let enter = sh.stamp();
+  let idx = {
+    let mut l = a.logs.lock().unwrap();
+    l[a.id].runs.push((enter, u64::MAX, seq, sh.now()));
+    l[a.id].runs.len() - 1
+  };
+  // the body takes a while: other threads may run in between
+  harness_yield("task-body");
+  let exit = sh.stamp();
+  a.logs.lock().unwrap()[a.id].runs[idx].1 = exit;
+}
+fn t_once(a: TArgs) -> NormalReturn<()> {
+  t_note(&a, 0);
+  NormalReturn::new(())
+}
+fn t_repeat(a: &mut TArgs, seq: usize) -> bool {
+  if seq >= a.limit {
+    return false;
+  }
+  t_note(a, seq);
+  true
+}
+fn t_fut(_: (), a: TArgs) -> NormalReturn<()> {
+  t_note(&a, 0);
+  NormalReturn::new(())
+}
+
+pub struct C19Threads;
+
+impl Scenario for C19Threads {
+  fn name(&self) -> &'static str {
+    "c19.threads"
+  }
+  fn weight(&self) -> usize {
+    1
+  }
+  fn components(&self) -> (&'static [&'static str], &'static [&'static str]) {
+    (&["Remote::poll (handle mutex held while the task is polled) vs TaskHandle::unsubscribe on another thread", "schedule() delay wrapper, OnceTask, RepeatTask, FutureTask"], &["pool workers and canceller are simulated threads (baton)", "timer, clock (sim)"])
+  }
+  fn generate(&self, rng: &mut Rng, _tier: Tier) -> Value {
+    let n = rng.range(1, 3);
+    let tasks: Vec<TaskSpec> = (0..n)
+      .map(|_| TaskSpec {
+        kind: match rng.below(4) {
+          0 | 1 => Kind::Once,
+          2 => Kind::Repeat { period_ms: 1, limit: rng.range(1, 3) as u32 },
+          _ => Kind::Fut { polls: rng.below(3) as u32 },
+        },
+        delay_ms: if rng.chance(1, 2) { None } else { Some(*rng.pick(&[0u32, 1])) },
+      })
+      .collect();
+    let cancels = (0..rng.range(1, n)).map(|_| rng.below(n)).collect();
+    let strategy = match rng.below(3) {
+      0 => Strategy::Random,
+      1 => Strategy::Seq { den: 3 },
+      _ => Strategy::Pct { d: rng.range(1, 3) as u8, k: 40 },
+    };
+    serde_json::to_value(TCase { tasks, cancels, workers: rng.range(1, 2), sched: SchedSpec::Seeded { seed: rng.next_u64(), strategy } }).unwrap()
+  }
+  fn run(&self, case: &Value) -> Result<Outcome, String> {
+    let case: TCase = serde_json::from_value(case.clone()).map_err(|e| e.to_string())?;
+    if case.tasks.is_empty() || case.tasks.len() > 4 || case.workers == 0 || case.workers > 3 || case.cancels.len() > 6 {
+      return Err("bad shape".into());
+    }
+    for t in &case.tasks {
+      match t.kind {
+        Kind::Repeat { period_ms, limit } if period_ms == 0 || limit > 5 => return Err("bad repeat".into()),
+        Kind::Sub | Kind::FutTimer { .. } => return Err("kind not used in thread arm".into()),
+        _ => {}
+      }
+    }
+    let shr = Shared::new();
+    let w = World::with_shared(shr.clone());
+    let logs: TLogs = Arc::new(Mutex::new((0..case.tasks.len()).map(|_| TTaskLog::default()).collect()));
+    let ts = TSim::new(shr.clone(), &case.sched, 1, case.workers, 20_000);
+    let sched = shared_sched();
+    let handles: Vec<Option<TaskHandle<NormalReturn<()>>>> = ts.with_pool(|| {
+      case
+        .tasks
+        .iter()
+        .enumerate()
+        .map(|(k, spec)| {
+          let args = TArgs { id: k, logs: logs.clone(), limit: if let Kind::Repeat { limit, .. } = spec.kind { limit as usize } else { 0 } };
+          let delay = spec.delay_ms.map(|d| Duration::from_millis(d as u64));
+          Some(match &spec.kind {
+            Kind::Once => sched.schedule(OnceTask::new(t_once, args), delay),
+            Kind::Repeat { period_ms, .. } => sched.schedule(RepeatTask::new(Duration::from_millis(*period_ms as u64), t_repeat, args), delay),
+            Kind::Fut { polls } => sched.schedule(FutureTask::new(PendingK(*polls), t_fut, args), delay),
+            _ => unreachable!(),
+          })
+        })
+        .collect()
+    });
+    let handles = Arc::new(Mutex::new(handles));
+    let mut bodies: Vec<Body> = Vec::new();
+    {
+      let handles = handles.clone();
+      let logs = logs.clone();
+      let cancels = case.cancels.clone();
+      bodies.push(Box::new(move || {
+        for c in &cancels {
+          harness_yield("before-cancel");
+          let (k, h) = {
+            let mut hs = handles.lock().unwrap();
+            let k = *c % hs.len();
+            (k, hs[k].take())
+          };
+          if let Some(h) = h {
+            let sh = shared();
+            let before = sh.stamp();
+            h.unsubscribe();
+            let after = sh.stamp();
+            logs.lock().unwrap()[k].cancel = Some((before, after));
+          }
+        }
+      }));
+    }
+    let rep = ts.run(bodies);
+    let site = "scheduler(threads)".to_string();
+    let mut violation = None;
+    if let Some(d) = &rep.deadlock {
+      violation = Some(Violation { rule: "c19.deadlock".into(), site: site.clone(), detail: d.clone() });
+    } else if rep.budget_overrun {
+      violation = Some(Violation { rule: "c19.livelock".into(), site: site.clone(), detail: "step budget exhausted".into() });
+    } else if let Some((t, m)) = rep.panics.first() {
+      violation = Some(Violation { rule: "c19.panic".into(), site: site.clone(), detail: format!("thread {} panicked: {}", t, m) });
+    } else {
+      let l = logs.lock().unwrap();
+      for (k, t) in l.iter().enumerate() {
+        let spec = &case.tasks[k];
+        let delay = spec.delay_ms.unwrap_or(0) as u64 * MS;
+        if !matches!(spec.kind, Kind::Repeat { .. }) && t.runs.len() > 1 {
+          violation = Some(Violation { rule: "c19.more-than-once".into(), site: site.clone(), detail: format!("task {} ran {} times", k, t.runs.len()) });
+        }
+        for (i, r) in t.runs.iter().enumerate() {
+          if r.2 != i {
+            violation = Some(Violation { rule: "c19.repeat-seq".into(), site: site.clone(), detail: format!("task {} run #{} had seq {}", k, i, r.2) });
+          }
+          let min = if i == 0 { delay } else { t.runs[i - 1].3 + if let Kind::Repeat { period_ms, .. } = spec.kind { period_ms as u64 * MS } else { 0 } };
+          if r.3 < min {
+            violation = Some(Violation { rule: "c19.early".into(), site: site.clone(), detail: format!("task {} run #{} at {}ns, earliest allowed {}ns", k, i, r.3, min) });
+          }
+        }
+        if let Some((_, after)) = t.cancel {
+          if let Some(r) = t.runs.iter().find(|r| r.0 > after) {
+            violation = Some(Violation { rule: "c19.run-after-cancel".into(), site: site.clone(), detail: format!("task {} body started at stamp {} after unsubscribe() had returned at stamp {}", k, r.0, after) });
+          } else if let Some(r) = t.runs.iter().find(|r| r.0 < after && r.1 > after) {
+            violation = Some(Violation { rule: "c19.running-after-cancel".into(), site: site.clone(), detail: format!("task {} body was still running (stamps {}..{}) when unsubscribe() returned at stamp {}", k, r.0, r.1, after) });
+          }
+        }
+      }
+    }
+    let summary = logs.lock().unwrap().iter().enumerate().map(|(k, t)| format!("t{}:{:?} runs={} cancel={:?}", k, case.tasks[k].kind, t.runs.len(), t.cancel.is_some())).collect::<Vec<_>>().join("; ");
+    let mut h = rep.trace_hash;
+    for t in logs.lock().unwrap().iter() {
+      h = hash_mix(h, t.runs.len() as u64 * 7 + t.cancel.is_some() as u64);
+    }
+    let mut resolved = case.clone();
+    resolved.sched = SchedSpec::Explicit(rep.decisions.clone());
+    let sim = shr.now();
+    drop(handles);
+    drop(w);
+    Ok(Outcome {
+      violation,
+      trace_hash: h,
+      nontrivial: rep.multi_choice > 0,
+      sim_ns: sim,
+      steps: rep.steps,
+      faults: vec![("cancel_racing_worker_poll", case.cancels.len() as u64), ("preemption", rep.preemptions), ("lock_contention", rep.contentions)],
+      reach: vec![("try_lock_contention_observed", (rep.contentions > 0) as u64)],
+      resolved: Some(serde_json::to_value(resolved).unwrap()),
+      sample: format!("workers={} cancels={:?} decisions={} => {}", case.workers, case.cancels, rep.decisions.len(), summary),
+    })
   }
 }
